@@ -40,11 +40,24 @@ def drive(writer, ops):
             drive(writer, op['children'])
             writer.pop_tag()
         elif k == 'leaf':
-            writer.write_tag(op['name'], attrs_of(op), op.get('data'))
+            data = op.get('data')
+            if op.get('bytes') and data is not None:
+                try:
+                    writer.write_tag(op['name'], attrs_of(op), data.encode('utf-8'))
+                except (TypeError, AssertionError, AttributeError):
+                    op['_rejected'] = True       # a writer may refuse bytes; it may not mangle them
+            else:
+                writer.write_tag(op['name'], attrs_of(op), data)
         elif k == 'comment':
             writer.write_comment(op['text'])
         elif k == 'text':
-            writer.write_line(op['text'], do_escape=True)
+            if op.get('bytes'):
+                try:
+                    writer.write_line(op['text'].encode('utf-8'), do_escape=True)
+                except (TypeError, AssertionError, AttributeError):
+                    op['_rejected'] = True
+            else:
+                writer.write_line(op['text'], do_escape=True)
         elif k == 'catch':
             try:
                 drive(writer, op['children'])
@@ -77,13 +90,16 @@ def model(ops):
                 # needs no special case: the exception simply propagates through this frame
                 run(op['children'], children)
             elif k == 'leaf':
+                if op.get('_rejected'):
+                    continue
                 data = op.get('data')
                 children = [('text', data)] if data else []
                 items.append(('elem', op['name'], {a: v for a, v in attrs_of(op) if v is not None}, children, True))
             elif k == 'comment':
                 items.append(('comment', ' %s ' % op['text']))
             elif k == 'text':
-                items.append(('text', op['text']))
+                if not op.get('_rejected'):
+                    items.append(('text', op['text']))
             elif k == 'catch':
                 try:
                     run(op['children'], items)
@@ -185,6 +201,12 @@ def check_document(doc):
     """Run one document (operation tree) against the real writer and the model.  Raises
     Mismatch with a clause name on any disagreement."""
     from giscanner.xmlwriter import XMLWriter
+
+    def clear(ops):
+        for op in ops:
+            op.pop('_rejected', None)
+            clear(op.get('children', []))
+    clear(doc['ops'])
     w = XMLWriter()
     if not doc['whitespace']:
         w.disable_whitespace()
@@ -328,8 +350,12 @@ class Genome(object):
                 d = self.below(4)
                 data = None if d == 0 else ('' if d == 1 else self.text(30))
                 out.append({'op': 'leaf', 'name': self.name(), 'attrs': self.attrs(), 'data': data})
+                if data and self.below(5) == 4:
+                    out[-1]['bytes'] = True        # the API also takes UTF-8 bytes for data and lines
             elif sel == 1:
                 out.append({'op': 'text', 'text': self.text(30)})
+                if self.below(5) == 4:
+                    out[-1]['bytes'] = True
             elif sel == 2:
                 out.append({'op': 'comment', 'text': self.comment_text()})
             elif sel in (3, 4):
